@@ -98,31 +98,67 @@ def priceOf (b : UInt8) : Nat := NeoModel.Generated.Opcodes.prices.getD b.toNat 
 
 def fuelSteps : Nat := 2000000
 
-def runLine (gas priced script : String) (args : List String) : String :=
-  match gas.toInt?, Hex.decode script, parseArgs #[] args [] with
+/-- fast hex decoding straight into an array (scripts can be 260 kB of hex). -/
+def hexVal (c : UInt8) : Option UInt8 :=
+  if 48 ≤ c && c ≤ 57 then some (c - 48)
+  else if 97 ≤ c && c ≤ 102 then some (c - 87)
+  else if 65 ≤ c && c ≤ 70 then some (c - 55)
+  else none
+
+def decodeHexArray (s : String) : Option (Array UInt8) :=
+  if s == "-" then some #[] else
+  let b := s.toUTF8
+  if b.size % 2 != 0 then none else
+  let n := b.size / 2
+  let rec go (i : Nat) (fuel : Nat) (acc : Array UInt8) : Option (Array UInt8) :=
+    match fuel with
+    | 0 => some acc
+    | fuel+1 =>
+      match hexVal (b.get! (2*i)), hexVal (b.get! (2*i+1)) with
+      | some x, some y => go (i+1) fuel (acc.push (x * 16 + y))
+      | _, _ => none
+  go 0 n (Array.mkEmpty n)
+
+def runVm (gas priced script : String) (args : List String) : Option Vm :=
+  match gas.toInt?, decodeHexArray script, parseArgs #[] args [] with
   | some g, some prog, some (h, st) =>
     let limit : Option Nat := if g < 0 then none else some g.toNat
     let cfg : Cfg := { price := if priced == "1" then some priceOf else none }
-    let v := run cfg fuelSteps (Vm.load prog.toArray st limit h)
+    some (run cfg fuelSteps (Vm.load prog st limit h))
+  | _, _, _ => none
+
+def runLine (gas priced script : String) (args : List String) : String :=
+  match runVm gas priced script args with
+  | some v =>
     match v.state with
     | .halt => s!"HALT gas={v.gas} " ++ showStack v.heap v.result
     | .fault => s!"FAULT gas={v.gas}"
     | _ => "TIMEOUT"
-  | _, _, _ => "bad-op"
+  | none => "bad-op"
 
-def step (s : Unit) (ws : List String) : Unit × String :=
+def step (ws : List String) : String :=
   match ws with
-  | ["case", k] => (s, s!"case {k}")
-  | "run" :: gas :: priced :: script :: args => (s, runLine gas priced script args)
+  | ["case", k] => s!"case {k}"
+  | "run" :: gas :: priced :: script :: args => runLine gas priced script args
   | "why" :: gas :: priced :: script :: args =>
     -- debugging aid: the fault message of the model
-    match gas.toInt?, Hex.decode script, parseArgs #[] args [] with
-    | some g, some prog, some (h, st) =>
-      let limit : Option Nat := if g < 0 then none else some g.toNat
-      let cfg : Cfg := { price := if priced == "1" then some priceOf else none }
-      let v := run cfg fuelSteps (Vm.load prog.toArray st limit h)
-      (s, s!"{repr v.state} {v.faultMsg} refs={reach v}")
-    | _, _, _ => (s, "bad-op")
-  | _ => (s, "bad-op")
+    match runVm gas priced script args with
+    | some v => s!"{repr v.state} {v.faultMsg} refs={reach v}"
+    | none => "bad-op"
+  | _ => "bad-op"
 
-def main : IO Unit := Proto.run () step
+/-- own line loop (Proto.run goes through `List Char`, too slow for 260 kB lines). -/
+partial def loop (hIn hOut : IO.FS.Stream) : IO Unit := do
+  let line ← hIn.getLine
+  if line.isEmpty then
+    hOut.flush
+    return ()
+  let line := (line.dropRightWhile (fun c => c == '\n' || c == '\r'))
+  let ws := (line.splitOn " ").filter (fun w => !w.isEmpty)
+  hOut.putStrLn (step ws)
+  loop hIn hOut
+
+def main : IO Unit := do
+  let hIn ← IO.getStdin
+  let hOut ← IO.getStdout
+  loop hIn hOut
